@@ -159,6 +159,21 @@ static void test_defaults() {
     check(ls == "x", "construct<std::string,1> from a char is the one-character string", 1, 1, 1);
 }
 
+// a "dynamic value" type constructible from anything: copying a val<Greedy> (typed_term and custom_term copy their functor from a non-const lvalue) must copy the held value,
+// not wrap the functor object itself into a new Greedy
+struct Greedy { int kind = 0; int number = 0; Greedy() = default; Greedy(int n) : kind(1), number(n) {} template<class X, class = std::enable_if_t<!std::is_same_v<std::decay_t<X>, Greedy> && !std::is_same_v<std::decay_t<X>, int>>> Greedy(X&&) : kind(2) {} };
+static void test_val_greedy() {
+    ++g_cases;
+    auto v = val(Greedy(7));
+    auto w = v;                       // copy from a non-const lvalue
+    const auto cv = v; auto x = cv;   // copy from a const lvalue
+    Poison p;
+    Greedy a = v(p), b = w(p, p), c = x();
+    check(a.kind == 1 && a.number == 7, "val(Greedy(7)) returns the value", 0, 1, 0);
+    check(b.kind == 1 && b.number == 7, "a copy of val(Greedy(7)) made from a non-const lvalue returns the value", 0, 2, 1);
+    check(c.kind == 1 && c.number == 7, "a copy of val(Greedy(7)) made from a const lvalue returns the value", 0, 0, 2);
+}
+
 // ---------------------------------------------------------------- val / create
 template<size_t... I> void test_val_create(std::index_sequence<I...>) {
     ++g_cases;
@@ -184,6 +199,7 @@ int main() {
     test_construct_all(std::make_index_sequence<9>{});
     test_pairs(std::make_index_sequence<9>{});
     test_defaults();
+    test_val_greedy();
     test_val_create_all(std::make_index_sequence<10>{});
     std::printf("{\"cases\": %ld, \"checks\": %ld, \"failures\": %ld, \"first_failure\": \"%s\"}\n", g_cases, g_checks, g_fail, g_first.c_str());
     return g_fail ? 1 : 0;
